@@ -3,6 +3,7 @@
 #pragma once
 #include "a_common.hpp"
 #include "b_dynamic.hpp"   // PgmPeek
+#include "a_pgm.hpp"       // check_routing (C07 oracle)
 #include "../sim/io_shim.hpp"
 #include "pgm/pgm_index_variants.hpp"
 #include <deque>
@@ -203,6 +204,7 @@ struct MappedClass {
         std::map<std::string, Instance> inst;
         std::vector<size_t> calls_per_op;
         bool check_c11 = true, check_c12 = true;
+        bool check_c07 = false;  ///< judge the routing of every search through hook H2 (bounded work per level), nothing else
         bool use_deque = false; ///< the range constructor is fed from a std::deque (random access, not contiguous)
     };
 
@@ -226,6 +228,23 @@ struct MappedClass {
         size_t stride = d.size() > 20000 ? d.size() / 5000 : 1;
         for (size_t i = 0; i < d.size(); i += stride) if (ix.begin()[i] != d[i]) { out.fail("sequence", what + ": element " + std::to_string(i) + " is " + key_text(ix.begin()[i]) + ", expected " + key_text(d[i])); return; }
         if (ix.begin()[d.size() - 1] != d.back()) { out.fail("sequence", what + ": last element differs"); return; }
+        if (c.check_c07) {
+            if constexpr (R > 0) {
+                const Base &b = static_cast<const Base &>(ix);
+                std::vector<sim::LevelRec> recs;
+                for (K q : c.queries) {
+                    recs.clear();
+                    sim::t_level_rec = &recs;
+                    auto r = b.search(q);
+                    sim::t_level_rec = nullptr;
+                    tr.add(r.pos);
+                    Outcome o2;
+                    if (!ea::check_routing<K, R>(recs, Peek::segs(b), Peek::offs(b), b.height(), std::max(Peek::first(b), q), q, o2, st, tr)) { out.fail(o2.clause, what + ": " + o2.detail, o2.focus); return; }
+                }
+                st.inc("queries", c.queries.size());
+            }
+            return;
+        }
         for (K q : c.queries) {
             std::string focus = "Q " + key_text(q);
             size_t lb = std::lower_bound(d.begin(), d.end(), q) - d.begin(), ub = std::upper_bound(d.begin(), d.end(), q) - d.begin();
@@ -384,6 +403,7 @@ struct MappedClass {
         c.queries = queries_for<K>(p, data);
         c.check_c11 = rc.prop != "C12";
         c.check_c12 = rc.prop != "C11";
+        if (rc.prop == "C07") { c.check_c07 = true; c.check_c12 = false; }
         c.use_deque = p.get("container") == "deque";
         std::string dir = scratch_dir();
         c.f1 = dir + "/f1.pgm"; c.f2 = dir + "/f2.pgm"; c.raw = dir + "/raw.bin";
